@@ -171,6 +171,25 @@ def shipped_names(L):
     return sorted(f[:-4] for f in os.listdir(ddir) if f.endswith(".npz"))
 
 
+def knob_probe():
+    """True iff every shipped table still loads through every entry point in a
+    pristine library (used by seams.effective_shift under shrunk constants)."""
+    from . import seams
+    L = seams.fresh_library(patch_stream=False)
+    call = {"biort": lambda c, x: c.biort(x), "level1": lambda c, x: c.level1(x),
+            "level1c": lambda c, x: c.level1(x, compact=True), "qshift": lambda c, x: c.qshift(x)}
+    for nm in ALL_NAMES:
+        for ld in LOADERS:
+            kind, _ = expected(ld, nm)
+            if kind != "ok":
+                continue
+            try:
+                call[ld](L.coeffs, nm)
+            except Exception:  # noqa
+                return False
+    return True
+
+
 def static_check():
     """Every shipped table x every loader entry point, twice, in a fresh
     library state.  Returns (n_obligations, failures, samples)."""
